@@ -323,6 +323,7 @@ thread_local! {
     pub static RUN_TAG: std::cell::Cell<u64> = const { std::cell::Cell::new(0) };
 }
 
+pub fn remote_config_pub(cores: &[u64], host_id: u64, run: u64) -> RuntimeConfig { remote_config(cores, host_id, run) }
 fn remote_config(cores: &[u64], host_id: u64, run: u64) -> RuntimeConfig {
     let mut toml = String::new();
     for (i, c) in cores.iter().enumerate() {
